@@ -56,11 +56,15 @@ def methods(cls):
     return {n.name: n for n in cls.body if isinstance(n, (ast.FunctionDef, ast.AsyncFunctionDef))}
 
 
-def get_method(cls, name, optional=False):
+def get_method(cls, name, optional=False, raw=False):
+    """the method; helpers of the same class that were introduced after the rules were written are expanded in place (pv/inline.py)"""
     m = methods(cls).get(name)
     if m is None and not optional:
         raise AnalysisError('anchor vanished: method %s.%s' % (cls.name, name))
-    return m
+    if m is None or raw:
+        return m
+    from .inline import flat
+    return flat(cls, m)
 
 
 def module_functions(tree):
@@ -71,7 +75,8 @@ def get_function(tree, name):
     f = module_functions(tree).get(name)
     if f is None:
         raise AnalysisError('anchor vanished: function %s in %s' % (name, getattr(tree, '_rel', '?')))
-    return f
+    from .inline import flat
+    return flat(tree, f)
 
 
 def all_functions(tree):
@@ -215,3 +220,16 @@ def stores_in(node):
         if isinstance(n, (ast.Name, ast.Attribute, ast.Subscript)) and isinstance(getattr(n, 'ctx', None), (ast.Store, ast.Del)):
             out.append(n)
     return out
+
+
+def walk_flat(tree, *flat_fns):
+    """ast.walk over a module in which the functions given (results of get_method / get_function, possibly with helpers
+    expanded in place) replace their originals, so that node identities agree with CFGs built from the flat functions"""
+    repl = {id(getattr(f, '_flat_of', f)): f for f in flat_fns}
+    st = [tree]
+    while st:
+        n = st.pop()
+        if id(n) in repl:
+            n = repl[id(n)]
+        yield n
+        st.extend(ast.iter_child_nodes(n))
